@@ -49,6 +49,8 @@ func main() {
 			os.Exit(4)
 		}
 		os.Exit(checks.RunOneC12(*name))
+	case "e3":
+		os.Exit(runE3(os.Args[2:]))
 	case "list":
 		var ids []string
 		for id := range checks.Registry {
@@ -464,6 +466,98 @@ func runReplay(args []string) int {
 	}
 	fmt.Fprintln(os.Stderr, "scenario not found:", rf.Scenario)
 	return 2
+}
+
+// runE3 replays default schedules of eligible scenarios against the UNMODIFIED proxy binary over real sockets
+// and compares the observable outcome with the simulated one. Conformance evidence only: never a verdict.
+func runE3(args []string) int {
+	fs := flag.NewFlagSet("e3", flag.ExitOnError)
+	proxy := fs.String("proxy", "", "path of the real proxy binary")
+	ids := fs.String("ids", "C01,C02,C06,C07,C08,C11,C13,C17", "checks whose scenarios are replayed")
+	per := fs.Int("per", 40, "max scenarios per check")
+	root := fs.String("root", "/verif", "")
+	tier := fs.String("tier", "quick", "")
+	fs.Parse(args)
+	type row struct {
+		Check, Scenario, Result, Detail string
+	}
+	var rows []row
+	total, agree, mismatch, unconfirmed := 0, 0, 0, 0
+	t0 := time.Now()
+	for _, id := range strings.Split(*ids, ",") {
+		c := checks.Registry[id]
+		if c == nil || c.Scenarios == nil {
+			continue
+		}
+		var el []*world.Scenario
+		for _, sc := range c.Scenarios(*tier) {
+			if sc.E3Eligible() {
+				el = append(el, sc)
+			}
+		}
+		// deterministic thinning: every k-th eligible scenario
+		step := 1
+		if len(el) > *per {
+			step = len(el) / *per
+		}
+		groups := map[string][]*world.Scenario{}
+		var order []string
+		for i := 0; i < len(el); i += step {
+			k := el[i].GroupKey()
+			if _, ok := groups[k]; !ok {
+				order = append(order, k)
+			}
+			groups[k] = append(groups[k], el[i])
+		}
+		for _, k := range order {
+			scs := groups[k]
+			rc, err := world.StartReal(scs[0], *proxy)
+			if err != nil {
+				for _, sc := range scs {
+					rows = append(rows, row{id, sc.Name, "not-confirmed", "proxy start: " + err.Error()})
+					unconfirmed++
+					total++
+				}
+				continue
+			}
+			for _, sc := range scs {
+				total++
+				sim := world.SimOutcome(world.Execute(sc, func(string, int) int { return 0 }))
+				real, err := rc.Replay(sc)
+				if err != nil {
+					rows = append(rows, row{id, sc.Name, "not-confirmed", err.Error()})
+					unconfirmed++
+					continue
+				}
+				if d := sim.Diff(real); d != "" {
+					rows = append(rows, row{id, sc.Name, "MISMATCH", d})
+					mismatch++
+					fmt.Printf("E3-MISMATCH %s %s: %s\n", id, sc.Name, d)
+				} else {
+					agree++
+					if agree <= 5 {
+						rows = append(rows, row{id, sc.Name, "agree", ""})
+					}
+				}
+			}
+			rc.Stop()
+		}
+	}
+	rep := map[string]interface{}{
+		"what":           "default schedules replayed against the unmodified proxy binary over real TCP sockets (fake nodes = the same node model); outcome = client byte streams + per-node command multisets",
+		"scenarios":      total,
+		"agree":          agree,
+		"mismatch":       mismatch,
+		"not_confirmed":  unconfirmed,
+		"wall_s":         time.Since(t0).Seconds(),
+		"rows":           rows,
+		"never_a_verdict": true,
+	}
+	b, _ := json.MarshalIndent(rep, "", " ")
+	os.MkdirAll(filepath.Join(*root, "conformance"), 0o755)
+	os.WriteFile(filepath.Join(*root, "conformance", "e3_report.json"), b, 0o644)
+	fmt.Printf("E3: %d scenarios replayed on the real binary: %d agree, %d mismatch, %d not confirmed, %.1fs\n", total, agree, mismatch, unconfirmed, time.Since(t0).Seconds())
+	return 0
 }
 
 func writeEvidence(root string, c *checks.Check, tier string, seed int, m *checks.Result, nOut, nNon, nviol int, wall float64) {
